@@ -235,6 +235,13 @@ def run(cfg, w):
         if op in ("or", "and", "sub") and len(B) == 1:
             r2 = {"or": lambda: sa | B[0], "and": lambda: sa & B[0], "sub": lambda: sa - B[0]}[op]()
             w.ob("single_dimension_operand", ids(r2.dim_list) == ids(want))
+            # the one-dimension set a Dimension hands out is the caller's: editing it in place does not change what the
+            # Dimension stands for as an operand later on
+            own = B[0].as_dimset()
+            own.append(probe_dim(env, w, A + B), inplace=True)
+            r3 = {"or": lambda: sa | B[0], "and": lambda: sa & B[0], "sub": lambda: sa - B[0]}[op]()
+            w.ob("single_dimension_operand_after_its_set_was_edited", ids(r3.dim_list) == ids(want), info=str([d.name for d in r3.dim_list]))
+            check_list(w, "fresh_as_dimset", B[0].as_dimset(), [B[0]])
         return
     if h == "lookup":
         op = cfg["op"]
